@@ -194,6 +194,17 @@ PROPS = {
             dict(name="FuzzApply", quick=0, thorough=180, shards_thorough=1, fuzz=True, rapid=False, fuzz_workers=8),
         ],
     ),
+    "C20": dict(
+        pkg="c20", level="exploration",
+        technique="property-based testing (rapid) of workloads against a recording Observability (token threading) and against the OpenTelemetry implementation (SDK span recorder, End-counting tracer wrapper, manual metric reader); oracle = pairing/nesting invariants and the harness's own ground-truth counts",
+        level_text="Random search over workloads mixing handler kinds, panics, filters, Once, cancelled contexts and succeeding/failing/absent persistence; start/complete pairing, context threading, span parentage, span end counts and the five counters are compared with counts the harness takes itself (handler bodies entered, panics raised, Append attempts and failures seen by a wrapper store).",
+        level_note="Span leaks are judged after bus.Wait(); durations are not inspected.",
+        assumptions=COMMON_ASSUME + ["the OpenTelemetry SDK's span recorder and manual reader report faithfully"],
+        tests=[
+            dict(name="TestRecording", quick=3000, thorough=30000, shards_thorough=8),
+            dict(name="TestOTel", quick=1000, thorough=8000, shards_thorough=8),
+        ],
+    ),
 }
 
 HOOK_COMMITS = ["99604d0"]
